@@ -355,6 +355,12 @@ class Monitor:
                             self.B.build(db['members'][k]).validate(gen_dt.to_py(da['members'][k], e))
                         except Exception:
                             return self.unsound_culprit(da['members'][k], db['members'][k], e)
+                # which members does the value lack?  mandatory ones of B that A knows (but may omit: listed mechanism) or
+                # mandatory ones of B that do not exist in A at all
+                mand_b = set(db['members']) - set(db.get('optional', db['members']))
+                missing = mand_b - set(w)
+                if any(k not in da['members'] for k in missing):
+                    return 'struct->struct/target-has-a-mandatory-member-the-source-lacks'
                 return 'struct->struct/members'
         except Exception:
             pass
